@@ -31,6 +31,8 @@ mod resource;
 mod nodeage;
 mod regen;
 mod cachepol;
+mod tgroup;
+mod sybil;
 mod tl;
 
 fn main() {
@@ -96,6 +98,8 @@ fn run(module: &str, command: &str, kv: &common::Args) -> i32 {
         ("nodeage", "drive") => nodeage::drive(kv),
         ("regen", "drive") => regen::drive(kv),
         ("cachepol", "drive") => cachepol::drive(kv),
+        ("tgroup", "drive") => tgroup::drive(kv),
+        ("sybil", "drive") => sybil::drive(kv),
         (m, c) => {
             eprintln!("unknown module/command {m} {c}");
             2
